@@ -5,6 +5,7 @@
 //!       the real crate builds the world and the projections are compared field by field.
 //!       impl -> spec: for a sample of the cases the real graph queries are recorded as trace
 //!       events that the trace specification validates.
+mod jsr;
 mod ops;
 mod project;
 mod world;
@@ -278,10 +279,171 @@ fn main() {
   let args: Vec<String> = std::env::args().collect();
   let code = match args.get(1).map(|s| s.as_str()) {
     Some("replay-core") => cmd_replay_core(&args),
+    Some("replay-jsr") => cmd_replay_jsr(&args),
+    Some("record-jsr") => cmd_record_jsr(&args),
     _ => {
       eprintln!("usage: dgv <replay-core> ...");
       2
     }
   };
   std::process::exit(code);
+}
+
+// ---------------------------------------------------------------------------------------------
+// C06: replay of MC_Jsr cases into JsrVersionResolver::resolve_version
+mod jsr_replay {
+  use deno_graph::packages::*;
+  use deno_semver::Version;
+  use deno_semver::package::PackageReq;
+  use serde_json::Value;
+  use serde_json::json;
+  use std::collections::HashMap;
+  use std::collections::HashSet;
+  use std::str::FromStr;
+
+  fn date(s: &str) -> Option<chrono::DateTime<chrono::Utc>> {
+    match s {
+      "old" => Some(chrono::DateTime::from_timestamp(1_577_836_800, 0).unwrap()), // 2020-01-01
+      "new" => Some(chrono::DateTime::from_timestamp(1_893_456_000, 0).unwrap()), // 2030-01-01
+      _ => None,
+    }
+  }
+
+  pub fn run(line: &str, idx: usize, mism: &mut Vec<Value>, stats: &mut (usize, usize, usize)) {
+    let case: Value = serde_json::from_str(line).expect("case");
+    let vers: Vec<Version> = case["vers"].as_array().unwrap().iter().map(|v| Version::parse_standard(v.as_str().unwrap()).unwrap()).collect();
+    let v = |i: &Value| vers[i.as_u64().unwrap() as usize - 1].clone();
+    let mut versions = HashMap::new();
+    for r in case["reg"].as_array().unwrap() {
+      versions.insert(v(&r[0]), JsrPackageInfoVersion { created_at: date(r[2].as_str().unwrap()), yanked: r[1].as_bool().unwrap() });
+    }
+    let info = JsrPackageInfo { versions, latest: None };
+    let name = "@s/p";
+    // calibration of the model's requirement table against deno_semver
+    if let Some(m) = case["matches"].as_object() {
+      for (req, set) in m {
+        let pr = PackageReq::from_str(&format!("{name}@{req}")).expect("req");
+        let set: HashSet<u64> = set.as_array().unwrap().iter().map(|x| x.as_u64().unwrap()).collect();
+        for (i, ver) in vers.iter().enumerate() {
+          if pr.version_req.matches(ver) != set.contains(&(i as u64 + 1)) {
+            mism.push(json!({"case": idx, "what": "calibration", "req": req, "version": ver.to_string(), "model": set.contains(&(i as u64 + 1))}));
+          }
+        }
+      }
+    }
+    let cutoff = chrono::DateTime::from_timestamp(1_735_689_600, 0).unwrap(); // 2025-01-01
+    let mk = |on: bool, ex_name: Option<&str>, ex_prefix: Option<&str>| JsrVersionResolver {
+      newest_dependency_date_options: NewestDependencyDateOptions {
+        date: on.then_some(NewestDependencyDate(cutoff)),
+        exclude_jsr_pkgs: ex_name.into_iter().map(|s| s.into()).collect(),
+        exclude_jsr_pkg_prefixes: ex_prefix.into_iter().map(|s| s.into()).collect(),
+      },
+    };
+    let combos = case["combos"].as_array().unwrap();
+    // expected results by (req, existing, cached, cutoff) for the exclusion variants
+    let mut by_key: HashMap<String, &Value> = HashMap::new();
+    for c in combos {
+      by_key.insert(format!("{}|{}|{}|{}", c[0], c[1], c[2], c[3]), &c[4]);
+    }
+    for c in combos {
+      let req = c[0].as_str().unwrap();
+      let pr = PackageReq::from_str(&format!("{name}@{req}")).expect("req");
+      let existing: Vec<Version> = c[1].as_array().unwrap().iter().map(&v).collect();
+      let cached: HashSet<Version> = c[2].as_array().unwrap().iter().map(&v).collect();
+      let on = c[3].as_bool().unwrap();
+      let mut variants: Vec<(JsrVersionResolver, &Value, &str)> = vec![(mk(on, None, None), &c[4], "plain")];
+      if on {
+        let off = by_key[&format!("{}|{}|{}|false", c[0], c[1], c[2])];
+        variants.push((mk(true, Some("@s/p"), None), off, "excluded-by-name"));
+        variants.push((mk(true, None, Some("@s/")), off, "excluded-by-prefix"));
+        variants.push((mk(true, Some("@s/pp"), Some("@t/")), &c[4], "other-package-excluded"));
+      }
+      for (resolver, expect, label) in variants {
+        stats.0 += 1;
+        let pname = pr.name.clone();
+        let r = resolver.get_for_package(&pname, &info);
+        let got = match r.resolve_version(&pr, existing.iter(), &cached) {
+          Ok(res) => {
+            let i = vers.iter().position(|x| x == res.version).map(|i| i + 1).unwrap_or(0);
+            json!(["ok", i, res.is_yanked])
+          }
+          Err(e) => json!(["nf", e.newest_dependency_date.is_some()]),
+        };
+        if got[0] == "ok" {
+          stats.1 += 1;
+        }
+        if &got != expect {
+          stats.2 += 1;
+          if mism.len() < 200 {
+            mism.push(json!({"case": idx, "what": "resolve_version", "variant": label, "req": req, "existing": c[1], "cached": c[2], "cutoff": on,
+                             "reg": case["reg"], "expected": expect, "observed": got, "prop": ["C06"]}));
+          }
+        }
+      }
+    }
+  }
+}
+
+pub fn cmd_replay_jsr(args: &[String]) -> i32 {
+  let cases_path = arg(args, "--cases").expect("--cases");
+  let result_path = arg(args, "--result").expect("--result");
+  let mut mism = vec![];
+  let mut stats = (0usize, 0usize, 0usize);
+  let mut n = 0;
+  for (i, l) in std::io::BufReader::new(std::fs::File::open(&cases_path).expect("cases")).lines().enumerate() {
+    let l = l.unwrap();
+    if l.trim().is_empty() {
+      continue;
+    }
+    jsr_replay::run(&l, i, &mut mism, &mut stats);
+    n += 1;
+  }
+  let res = json!({"cases": n, "calls": stats.0, "resolved": stats.1, "failed": stats.2, "mismatches": mism});
+  std::fs::write(&result_path, serde_json::to_string(&res).unwrap()).unwrap();
+  0
+}
+
+/// record-jsr: seeded random (or given) registry worlds -> instrumented builds -> trace ndjson
+pub fn cmd_record_jsr(args: &[String]) -> i32 {
+  use rand::SeedableRng;
+  let trace_path = arg(args, "--trace").expect("--trace");
+  let result_path = arg(args, "--result").expect("--result");
+  let n: usize = arg(args, "--n").map(|s| s.parse().unwrap()).unwrap_or(100);
+  let seed: u64 = arg(args, "--seed").map(|s| s.parse().unwrap()).unwrap_or(1);
+  let faults = args.iter().any(|a| a == "--faults");
+  let kinds_s = arg(args, "--kinds").unwrap_or_else(|| "all".to_string());
+  let kinds: Vec<&str> = kinds_s.split(',').collect();
+  let mut worlds: Vec<World> = vec![];
+  if let Some(p) = arg(args, "--worlds") {
+    for l in std::io::BufReader::new(std::fs::File::open(p).expect("worlds")).lines() {
+      let l = l.unwrap();
+      if l.trim().is_empty() { continue; }
+      let v: Value = serde_json::from_str(&l).unwrap();
+      let w = if v.get("w").is_some() { v["w"].clone() } else { v };
+      worlds.push(serde_json::from_value(w).expect("world"));
+    }
+  } else {
+    let mut rng = rand::rngs::StdRng::seed_from_u64(seed);
+    for _ in 0..n {
+      worlds.push(jsr::gen_world(&mut rng, faults));
+    }
+  }
+  let mut out = vec![];
+  let mut problems = vec![];
+  for (i, w) in worlds.iter().enumerate() {
+    jsr::record_world(i, w, &kinds, &mut out, &mut problems);
+  }
+  let mut f = std::io::BufWriter::new(std::fs::File::create(&trace_path).unwrap());
+  for e in &out {
+    writeln!(f, "{}", e).unwrap();
+  }
+  if let Some(p) = arg(args, "--dump-worlds") {
+    let mut f = std::io::BufWriter::new(std::fs::File::create(p).unwrap());
+    for w in &worlds {
+      writeln!(f, "{}", serde_json::to_string(w).unwrap()).unwrap();
+    }
+  }
+  let res = json!({"cases": worlds.len(), "trace_events": out.len(), "mismatches": problems});
+  std::fs::write(&result_path, serde_json::to_string(&res).unwrap()).unwrap();
+  0
 }
